@@ -200,7 +200,7 @@ int main(int argc, char **argv)
           for (i = 0; i < ni && i < GD_MAX_LINCOM; ++i) E.in_fields[i] = (char *)tok(ins[i]);
           for (i = 0; i < ns && i <= GD_MAX_POLYORD; ++i) {
             E.scalar[i] = (scs[i][0] == '-' && scs[i][1] == 0) ? NULL : (char *)tok(scs[i]);
-            E.scalar_ind[i] = -1;
+            E.scalar_ind[i] = 0;
           }
           switch (ty) {
             case 0: E.field_type = GD_RAW_ENTRY; E.EN(raw,data_type) = GD_UINT8; E.EN(raw,spf) = 1; break;
@@ -219,7 +219,13 @@ int main(int argc, char **argv)
             /* give the constant its value; find the new entry by pointer-free means */
             char full[4096];
             int64_t v = val;
-            if (parent) snprintf(full, sizeof full, "%s/%s", parent, name); else snprintf(full, sizeof full, "%s", name);
+            const char *sl = parent ? NULL : strchr(name + (name[0] ? 1 : 0), '/');
+            if (parent) snprintf(full, sizeof full, "%s/%s", parent, name);
+            else if (sl) {
+              /* Barth-style name: the parent part may be an alias; use the real parent's name */
+              gd_entry_t *P = _GD_FindField(D, name, sl - name, D->entry, D->n_entries, 1, NULL);
+              if (P) snprintf(full, sizeof full, "%s%s", P->field, sl); else snprintf(full, sizeof full, "%s", name);
+            } else snprintf(full, sizeof full, "%s", name);
             if (gd_put_constant(D, full, GD_INT64, &v)) { printf("> putconst-failed %d\n", gd_error(D)); dump(); continue; }
           }
         }
@@ -249,6 +255,11 @@ int main(int argc, char **argv)
           }
           printf("\n");
         }
+        break;
+      }
+      case 'F': { /* lookup with de-aliasing (not a model operation; used by the check's lookup witness) */
+        gd_entry_t *E = _GD_FindField(D, tok(t[1]), strlen(tok(t[1])), D->entry, D->n_entries, 1, NULL);
+        printf("> f %s\n", E ? show(E->field) : "-");
         break;
       }
       default: fprintf(stderr, "bad op %s\n", t[0]); return 2;
